@@ -2178,7 +2178,8 @@ func (m *Msg) EmbedFromIOFS(name string, iofs fs.FS, opts ...FileOption) error {
 
 // Reset resets all headers, body parts, attachments, and embeds of the Msg.
 //
-// This method clears all address headers, attachments, embeds, generic headers, and body parts of the message.
+// This method clears all address headers, attachments, embeds, generic headers (preformatted ones included),
+// and body parts of the message.
 // However, it preserves the existing encoding, charset, boundary, and other message-level settings.
 // Use this method to reset the message content while keeping certain configurations intact.
 //
@@ -2189,6 +2190,7 @@ func (m *Msg) Reset() {
 	m.attachments = nil
 	m.embeds = nil
 	m.genHeader = make(map[Header][]string)
+	m.preformHeader = make(map[Header]string)
 	m.parts = nil
 }
 
